@@ -99,16 +99,16 @@ impl RKind {
 
 #[derive(Clone, Copy, Debug, PartialEq, Eq, Hash, PartialOrd, Ord)]
 pub enum Op {
-	/// M <- SCHEMA_TEXT.parse::<SchemaMut>()
-	Parse,
-	/// M <- SchemaMut::from_nodes(good graph)
-	Build,
+	/// M <- text(i).parse::<SchemaMut>()
+	Parse(u8),
+	/// M <- SchemaMut::from_nodes(graph j) (all freezable; see `fixtures::build_spec`)
+	Build(u8),
 	/// edit M through `nodes_mut()` (see `fixtures::edit`)
 	Edit(u8),
 	/// S <- M.freeze() (ok or error path, M is consumed either way)
 	Freeze,
-	/// S <- SCHEMA_TEXT.parse::<Schema>()
-	ParseS,
+	/// S <- text(i).parse::<Schema>()
+	ParseS(u8),
 	/// SchemaMut::from_nodes(bad graph g).freeze(): the error path of freeze, nothing is kept
 	FreezeBad(u8),
 	DropM,
@@ -150,11 +150,11 @@ pub enum Op {
 impl Op {
 	pub fn token(self) -> String {
 		match self {
-			Op::Parse => "Pm".into(),
-			Op::Build => "Bm".into(),
+			Op::Parse(i) => format!("Pm{i}"),
+			Op::Build(j) => format!("Bm{j}"),
 			Op::Edit(e) => format!("Ed{e}"),
 			Op::Freeze => "Fz".into(),
-			Op::ParseS => "Ps".into(),
+			Op::ParseS(i) => format!("Ps{i}"),
 			Op::FreezeBad(g) => format!("Fb{g}"),
 			Op::DropM => "Xm".into(),
 			Op::MoveS(k) => format!("Mv{k}"),
@@ -183,11 +183,11 @@ impl Op {
 		let ch = |i: usize| -> Option<char> { rest.get(i).copied() };
 		let only = |n: usize| -> Option<()> { (rest.len() == n).then_some(()) };
 		Some(match head {
-			"Pm" => only(0).map(|_| Op::Parse)?,
-			"Bm" => only(0).map(|_| Op::Build)?,
+			"Pm" => Op::Parse(if rest.is_empty() { 0 } else { num(0).filter(|i| *i < fixtures::N_TEXTS)? }),
+			"Bm" => Op::Build(if rest.is_empty() { 0 } else { num(0).filter(|i| *i < fixtures::N_BUILDS)? }),
 			"Ed" => Op::Edit(num(0).filter(|e| *e < fixtures::N_EDITS)?),
 			"Fz" => only(0).map(|_| Op::Freeze)?,
-			"Ps" => only(0).map(|_| Op::ParseS)?,
+			"Ps" => Op::ParseS(if rest.is_empty() { 0 } else { num(0).filter(|i| *i < fixtures::N_TEXTS)? }),
 			"Fb" => Op::FreezeBad(num(0).filter(|g| (*g as usize) < fixtures::N_BAD)?),
 			"Xm" => only(0).map(|_| Op::DropM)?,
 			"Mv" => Op::MoveS(num(0).filter(|k| *k < 2)?),
@@ -222,14 +222,22 @@ impl Op {
 			Src::B => "arc_b",
 		};
 		match self {
-			Op::Parse => "m = SCHEMA_TEXT.parse::<SchemaMut>()".into(),
-			Op::Build => "m = SchemaMut::from_nodes(good graph)".into(),
+			Op::Parse(i) => format!("m = {:?}.parse::<SchemaMut>()", fixtures::text(i)),
+			Op::Build(j) => format!("m = SchemaMut::from_nodes({})", fixtures::describe_build(j)),
 			Op::Edit(e) => format!(
 				"m.nodes_mut(): {}",
-				["push unreachable map node -> new int node", "push unreachable array node with dangling key", "retarget field 0 of the root record to a new string node", "retarget field 0 of the root record to a dangling key", "clear()"][e as usize]
+				[
+					"push unreachable map node -> new int node",
+					"push unreachable array node whose key is the new nodes.len()",
+					"retarget field 0 of the root record to a new string node",
+					"retarget field 0 of the root record to key 1000",
+					"clear()",
+					"re-point the last field of the root record to where field 0 points (its old target becomes unreachable)",
+					"pop()"
+				][e as usize]
 			),
 			Op::Freeze => "schema = m.freeze()".into(),
-			Op::ParseS => "schema = SCHEMA_TEXT.parse::<Schema>()".into(),
+			Op::ParseS(i) => format!("schema = {:?}.parse::<Schema>()", fixtures::text(i)),
 			Op::FreezeBad(g) => format!("SchemaMut::from_nodes({}).freeze()", fixtures::describe_bad(g as usize)),
 			Op::DropM => "drop(m)".into(),
 			Op::MoveS(0) => "move schema into a Vec that reallocates, pop it, re-box it".into(),
@@ -278,6 +286,10 @@ pub struct Profile {
 	pub depth: usize,
 	/// (reader kind, codec) pairs offered to Open
 	pub opens: Vec<(RKind, Codec)>,
+	/// schema texts offered to Parse / ParseS
+	pub texts: Vec<u8>,
+	/// graphs offered to Build
+	pub builds: Vec<u8>,
 	/// bad graphs offered to FreezeBad
 	pub bad_graphs: Vec<u8>,
 	pub edits: Vec<u8>,
@@ -301,14 +313,19 @@ fn product(kinds: &[RKind], codecs: &[Codec]) -> Vec<(RKind, Codec)> {
 impl Profile {
 	/// Native sweep, quick tier (also swept one level deeper in the thorough tier).
 	pub fn wide() -> Profile {
-		let n = fixtures::N_GOOD as u8;
+		let n = fixtures::N_GOOD;
+		let bi = fixtures::bad_index;
 		Profile {
 			name: "wide",
 			depth: 4,
 			opens: product(&[RKind::Slice, RKind::Buf], &Codec::PURE),
-			// every position for the array kind, the last position for the other kinds, the empty graph
-			bad_graphs: (0..n).chain([2 * n - 1, 3 * n - 1, 4 * n - 1, fixtures::N_BAD as u8 - 1]).collect(),
-			edits: vec![0, 1, 2, 3, 4],
+			texts: vec![0, 2],
+			builds: vec![0, 1],
+			// key = len at every position for the array kind; the other kinds at the last (and the union
+			// also at the first) position with the three key classes; the empty graph; one unnamed cycle
+			// (every bad graph runs alone in `extras`)
+			bad_graphs: (1..=n).map(|pos| bi('A', pos, 0)).chain([bi('M', n, 1), bi('U', n, 0), bi('U', 1, 0), bi('R', n, 2), fixtures::BAD_EMPTY as u8, fixtures::BAD_EMPTY as u8 + 1]).collect(),
+			edits: (0..fixtures::N_EDITS).collect(),
 			de_targets: vec![Tgt::Owned, Tgt::Cow, Tgt::Any],
 			next_targets: vec![Tgt::Owned, Tgt::Cow, Tgt::Any, Tgt::Bad],
 			serc_values: vec![0, 2],
@@ -325,8 +342,18 @@ impl Profile {
 			name: "full",
 			depth: 4,
 			opens,
-			bad_graphs: (0..fixtures::N_BAD as u8).collect(),
-			edits: vec![0, 1, 2, 3, 4],
+			texts: (0..fixtures::N_TEXTS).collect(),
+			builds: (0..fixtures::N_BUILDS).collect(),
+			// every kind x key class at the last position, every position for the union kind with key =
+			// len, the empty graph, every unnamed cycle (all 89 bad graphs run alone in `extras`)
+			bad_graphs: {
+				let n = fixtures::N_GOOD;
+				let mut v: Vec<u8> = fixtures::BAD_KINDS.iter().flat_map(|k| (0..fixtures::N_BAD_KEYS).map(move |c| fixtures::bad_index(*k, n, c))).collect();
+				v.extend((1..n).map(|pos| fixtures::bad_index('U', pos, 0)));
+				v.extend((fixtures::BAD_EMPTY..fixtures::N_BAD).map(|g| g as u8));
+				v
+			},
+			edits: (0..fixtures::N_EDITS).collect(),
 			de_targets: Tgt::ALL.to_vec(),
 			next_targets: Tgt::ALL.to_vec(),
 			serc_values: vec![0, 1, 2],
@@ -345,13 +372,14 @@ impl Profile {
 	}
 	/// The alphabet Miri sweeps exhaustively (pure-Rust codecs; one representative per argument class).
 	pub fn core() -> Profile {
-		let n = fixtures::N_GOOD as u8;
 		Profile {
 			name: "core",
 			depth: 3,
 			opens: vec![(RKind::Slice, Codec::Null), (RKind::Slice, Codec::Snappy), (RKind::Buf, Codec::Deflate)],
-			// (every bad graph is in `extras`; one stays in the product alphabet)
-			bad_graphs: vec![3 * n - 1],
+			texts: vec![0],
+			builds: vec![0],
+			// (every bad graph is in `extras`; one stays in the product alphabet: unreachable union, key = len)
+			bad_graphs: vec![fixtures::bad_index('U', fixtures::N_GOOD, 0)],
 			edits: vec![1],
 			de_targets: vec![Tgt::Cow],
 			next_targets: vec![Tgt::Owned, Tgt::Cow],
@@ -367,6 +395,8 @@ impl Profile {
 			name: "core4",
 			depth: 4,
 			opens: vec![(RKind::Slice, Codec::Snappy), (RKind::Buf, Codec::Null)],
+			texts: vec![0],
+			builds: vec![0],
 			bad_graphs: vec![],
 			edits: vec![1],
 			de_targets: vec![Tgt::Cow],
@@ -377,8 +407,19 @@ impl Profile {
 			move_kinds: vec![1],
 		}
 	}
+	/// `wide` restricted to the one good schema text / graph: swept one level deeper in the thorough tier.
+	pub fn wide0() -> Profile {
+		let mut p = Profile::wide();
+		p.name = "wide0";
+		p.depth = 5;
+		p.texts = vec![0];
+		p.builds = vec![0];
+		p.bad_graphs = vec![fixtures::bad_index('A', 1, 0), fixtures::bad_index('U', fixtures::N_GOOD, 0), fixtures::BAD_EMPTY as u8, fixtures::BAD_EMPTY as u8 + 1];
+		p
+	}
 	pub fn by_name(name: &str) -> Option<Profile> {
 		match name {
+			"wide0" => Some(Profile::wide0()),
 			"core4" => Some(Profile::core4()),
 			"wide" => Some(Profile::wide()),
 			"full" => Some(Profile::full()),
@@ -391,28 +432,53 @@ impl Profile {
 		self.depth = d;
 		self
 	}
-	/// Histories outside the product alphabet that every detector must also run: every bad graph
-	/// (every kind x every position, and the empty graph) through the error path of freeze, alone,
-	/// before and after a live schema is used.
+	/// Histories outside the product alphabets that every detector must also run:
+	/// every bad graph through the error path of freeze (dangling key: 4 node kinds x 7 positions x keys
+	/// {len, len+1, usize::MAX}; the empty graph; unnamed cycles), alone, and a representative of each
+	/// class after / before a live schema is used; every schema text and every built graph (the ones with
+	/// empty unions) parsed / built, frozen and used; every edit (and detach + pop, which leaves an
+	/// unreachable union holding a key equal to the number of nodes) followed by freeze and a use.
 	pub fn extras() -> Vec<Vec<Op>> {
 		let mut out = Vec::new();
 		for g in 0..fixtures::N_BAD as u8 {
 			out.push(vec![Op::FreezeBad(g)]);
-			out.push(vec![Op::ParseS, Op::FreezeBad(g), Op::Dbg(Src::S)]);
-			out.push(vec![Op::FreezeBad(g), Op::ParseS, Op::Ser(Src::S)]);
 		}
-		// every edit, on a parsed and on a built graph, frozen (ok or error path) and used
-		for e in 0..fixtures::N_EDITS {
-			let mut m = fixtures::MState::fresh();
-			m.edit(e);
-			let mut a = vec![Op::Parse, Op::Edit(e), Op::Freeze];
-			let mut b = vec![Op::Build, Op::Edit(e), Op::Freeze];
-			if m.freezable() {
-				a.push(Op::Dbg(Src::S));
-				b.push(Op::Ser(Src::S));
+		let n = fixtures::N_GOOD;
+		let bi = fixtures::bad_index;
+		let mut reps: Vec<u8> = vec![bi('A', 1, 0), bi('M', n, 1), bi('U', n, 0), bi('U', 1, 0), bi('R', n, 2), bi('R', 3, 0)];
+		reps.extend((fixtures::BAD_EMPTY..fixtures::N_BAD).map(|g| g as u8));
+		for g in reps {
+			out.push(vec![Op::ParseS(0), Op::FreezeBad(g), Op::Dbg(Src::S)]);
+			out.push(vec![Op::FreezeBad(g), Op::ParseS(0), Op::Ser(Src::S)]);
+		}
+		for i in 0..fixtures::N_TEXTS {
+			out.push(vec![Op::ParseS(i), Op::Dbg(Src::S)]);
+			out.push(vec![Op::Parse(i), Op::Freeze, Op::Ser(Src::S)]);
+			out.push(vec![Op::ParseS(i), Op::De(Src::S, Tgt::Any), Op::DropS(0)]);
+		}
+		for j in 0..fixtures::N_BUILDS {
+			out.push(vec![Op::Build(j), Op::Freeze, Op::Dbg(Src::S)]);
+			out.push(vec![Op::Build(j), Op::Freeze, Op::Ser(Src::S)]);
+			out.push(vec![Op::Build(j), Op::Freeze, Op::De(Src::S, Tgt::Cow), Op::DropS(0)]);
+		}
+		let mut edit_seqs: Vec<Vec<u8>> = (0..fixtures::N_EDITS).map(|e| vec![e]).collect();
+		edit_seqs.push(vec![5, 6]);
+		edit_seqs.push(vec![6, 6]);
+		edit_seqs.push(vec![5, 6, 6]);
+		for es in edit_seqs {
+			for start in [Op::Parse(0), Op::Build(0)] {
+				let mut m = if start == Op::Parse(0) { fixtures::MState::parsed(0) } else { fixtures::MState::built(0) };
+				let mut h = vec![start];
+				for e in &es {
+					m.edit(*e);
+					h.push(Op::Edit(*e));
+				}
+				h.push(Op::Freeze);
+				if m.freezable() {
+					h.push(if start == Op::Parse(0) { Op::Dbg(Src::S) } else { Op::Ser(Src::S) });
+				}
+				out.push(h);
 			}
-			out.push(a);
-			out.push(b);
 		}
 		debug_assert!(out.iter().all(|h| admissible(h).is_some()));
 		out
@@ -447,10 +513,10 @@ impl Abs {
 	/// Is `op` admissible (operands live, nothing the borrow checker forbids)? Independent of profile.
 	pub fn admits(&self, op: Op) -> bool {
 		match op {
-			Op::Parse | Op::Build => self.m.is_none(),
+			Op::Parse(_) | Op::Build(_) => self.m.is_none(),
 			Op::Edit(_) | Op::DropM => self.m.is_some(),
 			Op::Freeze => self.m.is_some() && !self.s,
-			Op::ParseS => !self.s,
+			Op::ParseS(_) => !self.s,
 			Op::FreezeBad(_) => true,
 			Op::MoveS(_) | Op::DropS(_) => self.s && !self.borrowed(Src::S),
 			Op::ArcNew => self.s && !self.borrowed(Src::S) && !self.arc[0],
@@ -473,19 +539,20 @@ impl Abs {
 	pub fn apply(&mut self, op: Op) {
 		debug_assert!(self.admits(op));
 		match op {
-			Op::Parse | Op::Build => self.m = Some(fixtures::MState::fresh()),
+			Op::Parse(i) => self.m = Some(fixtures::MState::parsed(i)),
+			Op::Build(j) => self.m = Some(fixtures::MState::built(j)),
 			Op::Edit(e) => {
 				if let Some(m) = self.m.as_mut() {
 					m.edit(e)
 				}
 			}
 			Op::Freeze => {
-				if self.m.map_or(false, |m| m.freezable()) {
+				if self.m.as_ref().map_or(false, |m| m.freezable()) {
 					self.s = true;
 				}
 				self.m = None;
 			}
-			Op::ParseS => self.s = true,
+			Op::ParseS(_) => self.s = true,
 			Op::FreezeBad(_) => {}
 			Op::DropM => self.m = None,
 			Op::MoveS(_) => {}
@@ -517,11 +584,11 @@ impl Abs {
 	/// All operations of the profile's alphabet admitted in this state, in a fixed order.
 	pub fn enabled(&self, p: &Profile) -> Vec<Op> {
 		let mut all: Vec<Op> = Vec::new();
-		all.push(Op::Parse);
-		all.push(Op::Build);
+		all.extend(p.texts.iter().map(|i| Op::Parse(*i)));
+		all.extend(p.builds.iter().map(|j| Op::Build(*j)));
 		all.extend(p.edits.iter().map(|e| Op::Edit(*e)));
 		all.push(Op::Freeze);
-		all.push(Op::ParseS);
+		all.extend(p.texts.iter().map(|i| Op::ParseS(*i)));
 		all.extend(p.bad_graphs.iter().map(|g| Op::FreezeBad(*g)));
 		all.push(Op::DropM);
 		all.extend(p.move_kinds.iter().map(|k| Op::MoveS(*k)));
@@ -640,7 +707,7 @@ pub fn cone(h: &[Op], idx: usize) -> Vec<Op> {
 	for (i, op) in h.iter().enumerate().take(idx + 1) {
 		let mut d: Vec<usize> = Vec::new();
 		match *op {
-			Op::Parse | Op::Build => {
+			Op::Parse(_) | Op::Build(_) => {
 				l.m = vec![i];
 				d = l.m.clone();
 			}
@@ -651,10 +718,10 @@ pub fn cone(h: &[Op], idx: usize) -> Vec<Op> {
 			Op::Freeze => {
 				l.m.push(i);
 				d = l.m.clone();
-				l.s = if a.m.map_or(false, |m| m.freezable()) { std::mem::take(&mut l.m) } else { Vec::new() };
+				l.s = if a.m.as_ref().map_or(false, |m| m.freezable()) { std::mem::take(&mut l.m) } else { Vec::new() };
 				l.m.clear();
 			}
-			Op::ParseS => {
+			Op::ParseS(_) => {
 				l.s = vec![i];
 				d = l.s.clone();
 			}
@@ -784,7 +851,7 @@ pub fn has_result(op: Op) -> bool {
 /// serialise, deserialise, Debug, reader open / next) AND contains at least one lifecycle event that
 /// the tests never order differently (drop, move, Arc clone, edit, error-path freeze).
 pub fn nontrivial(h: &[Op]) -> bool {
-	let uses = h.iter().any(|o| matches!(o, Op::Freeze | Op::ParseS | Op::FreezeBad(_) | Op::SerC(_) | Op::Ser(_) | Op::De(..) | Op::Dbg(_) | Op::Open(..) | Op::Next(_)));
+	let uses = h.iter().any(|o| matches!(o, Op::Freeze | Op::ParseS(_) | Op::FreezeBad(_) | Op::SerC(_) | Op::Ser(_) | Op::De(..) | Op::Dbg(_) | Op::Open(..) | Op::Next(_)));
 	let life = h.iter().any(|o| {
 		matches!(
 			o,
